@@ -110,8 +110,9 @@ def unique_resolved_parents(guards):
         if len(ats) != 2 or len(full) != 1 or len(sets) != 1 or sets[0][1].key[1].key[1] != full[0][1].key[1]:
             continue
         coll = full[0][1].key[1]
-        resolved = _mentions(coll, lambda x: isinstance(x, Sym) and x.key[0] == "call" and x.key[1] == "self._get_index"
-                             and _mentions(x.key[2], lambda y: y == Sym(("name", "parent"))))
+        # the elements are results of _get_index and the collection is computed from `parent` (element by element, in a loop or a comprehension)
+        resolved = _mentions(coll, lambda x: isinstance(x, Sym) and x.key[0] == "call" and x.key[1] == "self._get_index") \
+            and _mentions(coll, lambda y: y == Sym(("name", "parent")))
         if not resolved:
             continue
 
